@@ -159,7 +159,63 @@ func checkC05(c *km.Ctx) {
 	}
 
 	// R-C05-3: inside the re-signing function
-	if uj := c.MustFunc("R-C05-3", "cmd/keymasterd", "(*RuntimeState).updateAuthJWTWithNewAuthLevel"); uj != nil && len(uj.Params) >= 4 {
+	if uj := c.MustFunc("R-C05-3", "cmd/keymasterd", "(*RuntimeState).updateAuthJWTWithNewAuthLevel"); uj != nil && km.ParamAt(uj, 2) == nil {
+		// the re-signing function no longer takes the user: whoever calls it has compared the subject of the very
+		// token it hands over with the user the factor was proven for
+		nCall := 0
+		for _, cs := range c.G.Callers[uj] {
+			ci := cs.Instr.(ssa.CallInstruction)
+			a := km.CallArgs(ci.Common())
+			if len(a) < 2 || a[1] == nil {
+				continue
+			}
+			nCall++
+			tok := km.Unwrap(a[1])
+			sameToken := func(v ssa.Value) bool {
+				v = km.Unwrap(v)
+				if v == tok {
+					return true
+				}
+				b1, f1, ok1 := km.FieldOfLoad(v)
+				b2, f2, ok2 := km.FieldOfLoad(tok)
+				return ok1 && ok2 && f1 == f2 && km.CellOrigin(km.Unwrap(b1)) == km.CellOrigin(km.Unwrap(b2))
+			}
+			caller := cs.Caller
+			bound := km.Prim{Name: "subject of the handed token == user", Direct: func(f km.Fact) bool {
+				if f.Op != token.EQL || f.X == nil || f.Y == nil {
+					return false
+				}
+				for _, pr := range [][2]ssa.Value{{f.X, f.Y}, {f.Y, f.X}} {
+					base, fld, ok := km.FieldOfLoad(km.Unwrap(pr[0]))
+					if !ok || (fld != "Username" && fld != "Subject") {
+						continue
+					}
+					cl, idx := callRes(km.CellOrigin(km.Unwrap(base)))
+					if cl == nil || idx != 0 || !strings.Contains(km.CalleeFull(cl.Common()), "getAuthInfoFrom") {
+						continue
+					}
+					ta := km.CallArgs(cl.Common())
+					if len(ta) < 2 || !sameToken(ta[1]) {
+						continue
+					}
+					o := km.Unwrap(pr[1])
+					if p, isP := o.(*ssa.Parameter); isP && p.Parent() == caller {
+						return true
+					}
+					if isAuthUser(o) {
+						return true
+					}
+				}
+				return false
+			}}
+			st := c.F.At(cs.Instr)
+			ok := st.All(func(k km.Conj) bool { return s.Holds(k, bound) })
+			r.Add("R-C05-3", km.FuncName(caller), "re-sign existing cookie", posOf(c, cs.Instr), "the subject of the token handed to the re-signing function was compared with the user the factor was proven for", clipS(st.String(), 240), ok)
+		}
+		if nCall == 0 {
+			r.AnchorLost("R-C05-3", "calls of updateAuthJWTWithNewAuthLevel")
+		}
+	} else if uj != nil && len(uj.Params) >= 4 {
 		subjectBound := km.Prim{Name: "subject==username", Direct: func(f km.Fact) bool {
 			if f.Op != token.EQL {
 				return false
